@@ -140,6 +140,11 @@ namespace hs
         virtual void next_iteration()
         {
         }
+        // (temporary stacks: on the temporary_allocator of scope k, which need not be the active one)
+        virtual void shrink_scope(int)
+        {
+            shrink_to_fit();
+        }
         virtual void shrink_to_fit()
         {
         }
